@@ -19,6 +19,8 @@
 //   must get that exception and its NEXT local() must run the initialiser again and return a valid element (exists=false);
 //   barrier; thread 0 checks size()/combine_each and, with clear=1, calls clear(); phase B = the same threads call local(exists) again:
 //   after clear() every thread gets a NEW element from a new initialiser call and exists=false.
+//   move=<1 move construction|2 move assignment into a fresh container> late=<k>: at the barrier thread 0 moves the container instead; phase B is then run by k NEW
+//   threads on the moved-to container (first access: fresh element, exists=false, one initialiser call; then a repeated call), the values of phase A must all be in it.
 #include "oneapi/tbb/collaborative_call_once.h"
 #include "oneapi/tbb/enumerable_thread_specific.h"
 #include "oneapi/tbb/combinable.h"
@@ -26,6 +28,7 @@
 #include "oneapi/tbb/task_arena.h"
 #include "oneapi/tbb/parallel_for.h"
 #include "oneapi/tbb/global_control.h"
+#include <set>
 #include "../engine/drv/drv.h"
 
 const char* H_PROP = "C19";
@@ -95,7 +98,7 @@ std::string h_gen(Src& s) {
         int par = 1 + (int)s.choose(3);
         int throwat = s.coin(2) ? (int)s.choose((uint32_t)nt + 1) : -1;
         return "ets2 kind=" + std::to_string(kind) + " init=" + std::to_string(init) + " threads=" + std::to_string(nt) + " par=" + std::to_string(par) + " throwat=" + std::to_string(throwat) +
-               " clear=" + std::to_string((int)!s.coin(3)) + " w=" + std::to_string(s.range(0, 4)) + "\n";
+               " clear=" + std::to_string((int)!s.coin(3)) + " w=" + std::to_string(s.range(0, 4)) + (s.coin(3) ? " move=" + std::to_string(s.range(1, 2)) + " late=" + std::to_string(s.range(2, 4)) : std::string()) + "\n";
     }
     return v == 0 ? gen_once(s) : gen_ets(s);
 }
@@ -291,6 +294,16 @@ template <class C> struct EtsRun {
     template <class X = C> auto iterate(int) -> decltype(std::declval<X&>().begin(), void()) {
         std::map<const Elem*, int> seen; for (auto it = c.begin(); it != c.end(); ++it) seen[&*it]++; check_visit("iteration", seen);
         std::map<const Elem*, int> seen2; auto rg = c.range(); for (auto it = rg.begin(); it != rg.end(); ++it) seen2[&*it]++; check_visit("range()", seen2);
+        // the iterators are random access: walk backwards and jump around, dereferencing after every move (an iterator caches the element it last pointed to)
+        { std::vector<const Elem*> fwd; for (auto it = c.begin(); it != c.end(); ++it) fwd.push_back(&*it); long n = (long)fwd.size();
+          auto bad = [&](const char* how, long i) { vs_violation("ETS-ITERATOR", "%s: the iterator should point to element %ld of %ld, it points elsewhere", how, i, n); };
+          if (n > 0) {
+              auto it = c.end(); for (long k = n; k-- > 0;) { --it; if (&*it != fwd[(size_t)k]) bad("--it from end()", k); }
+              auto jt = c.end(); jt--; for (long k = n - 1; k >= 0; k--) { if (&*jt != fwd[(size_t)k]) bad("it-- from end()", k); if (k) jt--; }
+              auto kt = c.begin(); long pos = 0; (void)*kt;
+              for (long step = 0; step < 2 * n; step++) { long to = (pos * 7 + 3 + step) % n; kt += (to - pos); pos = to; if (&*kt != fwd[(size_t)pos]) bad("it += d", pos); if (&c.begin()[pos] != fwd[(size_t)pos]) bad("begin()[i]", pos); if (&*(c.end() - (n - pos)) != fwd[(size_t)pos]) bad("end() - d", pos); if ((kt - c.begin()) != pos) bad("it - begin()", pos); }
+              auto lt = c.begin(); (void)*lt; for (long k = 1; k < n; k++) { auto old = lt++; if (&*old != fwd[(size_t)k - 1] || &*lt != fwd[(size_t)k]) bad("it++", k); }
+          } }
         const X& cc = c; std::map<const Elem*, int> seen3; for (auto it = cc.begin(); it != cc.end(); ++it) seen3[&*it]++; check_visit("const iteration", seen3);
         size_t owners = 0; for (auto& kv : TS) if (kv.second.addr) owners++;
         if (c.size() != owners) vs_violation("ETS-VISIT", "size()=%zu but %zu threads own an element", (size_t)c.size(), owners);
@@ -369,11 +382,11 @@ struct LElem {
     ~LElem() { l_live--; }
 };
 template <class C> struct LifeRun {
-    C& c; int nt, w; bool do_clear; int phase = 0, arrived = 0; std::map<int, LElem*> mine; long n_threw = 0, n_retry = 0;
+    C* cp; int nt, w; bool do_clear; int mv = 0, late = 0; bool use_finit = false; bool moved = false; int phase = 0, arrived = 0; std::map<int, LElem*> mine; long n_threw = 0, n_retry = 0;
     void first_access(int me, const char* when) {
         for (int attempt = 0; attempt < 3; attempt++) {
             int before = l_init_by[me]; bool ex = true; LElem* p = nullptr;
-            try { p = &c.local(ex); }
+            try { p = &cp->local(ex); }
             catch (InitThrow&) {
                 n_threw++;
                 if (l_init_by[me] != before + 1) vs_violation("ETS-INIT-COUNT", "thread %d (%s): the throwing local() made %d initialiser calls", me, when, l_init_by[me] - before);
@@ -390,17 +403,21 @@ template <class C> struct LifeRun {
         vs_violation("ETS-INIT-COUNT", "thread %d (%s): local() threw three times, only one initialiser call is planned to throw", me, when);
     }
     void again(int me, const char* when) {
-        int before = l_init_by[me]; bool ex = false; LElem* p = &c.local(ex);
+        int before = l_init_by[me]; bool ex = false; LElem* p = &cp->local(ex);
         if (!ex || p != mine[me] || l_init_by[me] != before) vs_violation("ETS-ADDRESS-CHANGED", "thread %d (%s): repeated local() gave exists=%d element %p (first %p) and %d more initialiser calls", me, when, (int)ex, (void*)p, (void*)mine[me], l_init_by[me] - before);
     }
     void check(const char* when) {
-        std::map<const LElem*, int> seen; c.combine_each([&seen](const LElem& e) { seen[&e]++; });
+        std::map<const LElem*, int> seen; cp->combine_each([&seen](const LElem& e) { seen[&e]++; });
         // known finding C19-ets-throwing-initialiser-phantom-element: the slot of an element whose initialiser threw stays in the container, so size(),
         // iteration and combine_each include an object that was never constructed.  Outside the witness leg the surplus (at most one per throw) is counted as excluded.
         if (n_threw && !l_witness && seen.size() > mine.size() && seen.size() <= mine.size() + (size_t)n_threw) { l_excluded++; }
         else
         if (seen.size() != mine.size()) vs_violation(n_threw ? "ETS-PHANTOM-ELEMENT" : "ETS-VISIT", "%s: combine_each visited %zu elements, %zu threads own one%s", when, seen.size(), mine.size(), n_threw ? " (an initialiser threw earlier: its never-constructed element is still in the container)" : "");
-        for (auto& kv : mine) if (seen[kv.second] != 1) vs_violation("ETS-VISIT", "%s: the element of thread %d was visited %d times", when, kv.first, seen[kv.second]);
+        if (!moved) for (auto& kv : mine) if (seen[kv.second] != 1) vs_violation("ETS-VISIT", "%s: the element of thread %d was visited %d times", when, kv.first, seen[kv.second]);
+        if (moved) {      // the values of phase A are in the moved-to container (identified by their owner field, not by address)
+            std::set<int> owners; cp->combine_each([&owners](const LElem& e) { owners.insert(e.owner); });
+            for (auto& kv : mine) if (!owners.count(kv.first)) vs_violation("ETS-VISIT", "%s: the value of thread %d is not in the moved-to container", when, kv.first);
+            return; }
         if ((long)mine.size() != l_live) vs_violation("ETS-INIT-COUNT", "%s: %ld elements alive, %zu threads own one", when, l_live, mine.size());
     }
     void thread(int t) {
@@ -410,18 +427,33 @@ template <class C> struct LifeRun {
         if (t == 0) {
             vs_block_until([this] { return arrived == nt; });
             check("after phase A");
-            if (do_clear) { c.clear(); mine.clear(); if (l_live != 0) vs_violation("ETS-INIT-COUNT", "clear() left %ld elements alive", l_live); }
+            if (mv) {
+                auto finit = [] { return LElem(); };
+                C* c2 = nullptr;
+                if (mv == 1) c2 = new C(std::move(*cp));
+                else { c2 = use_finit ? new C(finit) : new C(); *c2 = std::move(*cp); }
+                cp = c2; moved = true; check("after the move");
+            } else
+            if (do_clear) { cp->clear(); mine.clear(); if (l_live != 0) vs_violation("ETS-INIT-COUNT", "clear() left %ld elements alive", l_live); }
             phase = 1;
         } else vs_block_until([this] { return phase == 1; });
         vs_work(w ? (t * 3) % (w + 1) : 0);
+        if (mv) return;      // phase B on a moved-to container is run by new threads only
         if (do_clear) first_access(me, "after clear()"); else again(me, "phase B");
         again(me, "phase B, second call");
     }
+    void late_thread(int t) {
+        int me = vs_self(); vs_block_until([this] { return phase == 1; });
+        vs_work(w ? (t * 5) % (w + 1) : 0);
+        first_access(me, "new thread on the moved-to container"); vs_work(1); again(me, "new thread on the moved-to container, second call");
+    }
+    static void late_tramp(void* p) { auto* a = (std::pair<LifeRun*, int>*)p; a->first->late_thread(a->second); }
     static void tramp(void* p) { auto* a = (std::pair<LifeRun*, int>*)p; a->first->thread(a->second); }
     void run() {
         std::vector<std::pair<LifeRun*, int>> args; args.reserve(16); std::vector<int> ids;
         for (int t = 0; t < nt; t++) args.push_back({ this, t });
         for (int t = 1; t < nt; t++) ids.push_back(vs_thread_start(tramp, &args[(size_t)t]));
+        if (mv) for (int t = 0; t < late; t++) { args.push_back({ this, nt + t }); ids.push_back(vs_thread_start(late_tramp, &args.back())); }
         thread(0);
         for (int id : ids) vs_thread_join(id);
         vs_wait_quiescent();
@@ -431,19 +463,19 @@ template <class C> struct LifeRun {
 static void run_ets2(Case& c) {
     const std::string& l = c.lines[0];
     int kind = (int)kvl(l, "kind", 0), init = (int)kvl(l, "init", 0), nt = (int)kvl(l, "threads", 2), par = (int)kvl(l, "par", 2); l_throwat = kvl(l, "throwat", -1);
-    bool clr = kvl(l, "clear", 0) != 0; int w = (int)kvl(l, "w", 0); l_witness = kvl(l, "witness", 0) != 0;
+    bool clr = kvl(l, "clear", 0) != 0; int w = (int)kvl(l, "w", 0); int mv = (int)kvl(l, "move", 0), late = (int)kvl(l, "late", 0); if (late < 0 || late > 6) late = 0; l_witness = kvl(l, "witness", 0) != 0;
     if (nt < 1 || nt > 8) vs_inconclusive("BAD-CASE", "threads");
     vs_begin(c.sched.c_str());
     tbb::global_control gc(tbb::global_control::max_allowed_parallelism, (size_t)par);
     typedef tbb::enumerable_thread_specific<LElem, tbb::cache_aligned_allocator<LElem>, tbb::ets_no_key> E0;
     typedef tbb::enumerable_thread_specific<LElem, tbb::cache_aligned_allocator<LElem>, tbb::ets_key_per_instance> E1;
     typedef tbb::combinable<LElem> E2;
-    long threw = 0, retried = 0;
+    long threw = 0, retried = 0; if (mv) vs_stat_flag("ets_moved_then_new_threads");
     // finit constructs the element in place (guaranteed elision): no copy of LElem is needed
     auto finit = [] { return LElem(); };
-    if (kind == 0) { E0* e = init ? new E0(finit) : new E0(); LifeRun<E0> r{ *e, nt, w, clr }; r.run(); threw = r.n_threw; retried = r.n_retry; }
-    else if (kind == 1) { E1* e = init ? new E1(finit) : new E1(); LifeRun<E1> r{ *e, nt, w, clr }; r.run(); threw = r.n_threw; retried = r.n_retry; }
-    else { E2* e = init ? new E2(finit) : new E2(); LifeRun<E2> r{ *e, nt, w, clr }; r.run(); threw = r.n_threw; retried = r.n_retry; }
+    if (kind == 0) { E0* e = init ? new E0(finit) : new E0(); LifeRun<E0> r{ e, nt, w, clr }; r.mv = mv; r.late = late; r.use_finit = init != 0; r.run(); threw = r.n_threw; retried = r.n_retry; }
+    else if (kind == 1) { E1* e = init ? new E1(finit) : new E1(); LifeRun<E1> r{ e, nt, w, clr }; r.mv = mv; r.late = late; r.use_finit = init != 0; r.run(); threw = r.n_threw; retried = r.n_retry; }
+    else { E2* e = init ? new E2(finit) : new E2(); LifeRun<E2> r{ e, nt, w, clr }; r.mv = mv; r.late = late; r.use_finit = init != 0; r.run(); threw = r.n_threw; retried = r.n_retry; }
     vs_end();
     static const char* kn[] = { "ets_no_key", "ets_key_per_instance", "combinable" };
     vs_stat_flag(kn[kind]); vs_stat_flag("ets_life_cycle"); if (clr) vs_stat_flag("ets_clear_then_local"); if (threw) vs_stat_flag("ets_initialiser_threw"); if (retried) vs_stat_flag("ets_retry_after_throw");
